@@ -91,6 +91,8 @@ fn observe(kind: u32, addr: usize) {
 
 /// The ring whose (awake) kernel thread `sqpoll_progress` lets run.
 static SQPOLL_RING: std::sync::atomic::AtomicI32 = std::sync::atomic::AtomicI32::new(-1);
+/// Loads of kernel-shared words since the last handle's `io_uring_enter`.
+static SQPOLL_LOADS: std::sync::atomic::AtomicU32 = std::sync::atomic::AtomicU32::new(0);
 
 /// Scheduling-point hook for `sqpoll-last-handle`: the simulated kernel thread consumes everything
 /// published at the first load of a kernel-shared word AFTER an `io_uring_enter` call of the ring
@@ -106,6 +108,13 @@ fn sqpoll_progress(kind: u32, _addr: usize) {
     simk::with_sim(|sim| {
         let entered = sim.events.iter().any(|e| matches!(e, KEv::Enter { .. }));
         if !entered {
+            return;
+        }
+        // …and not at once: the thread needs a moment. `io_uring_enter`'s own epilogue
+        // (`wake_blocked_futures`) loads the two queue counters; the thread runs at the third load,
+        // i.e. only for code that keeps looking at the queue after the call returned.
+        let n = SQPOLL_LOADS.fetch_add(1, std::sync::atomic::Ordering::SeqCst) + 1;
+        if n < 3 {
             return;
         }
         let mut evs = Vec::new();
@@ -449,6 +458,68 @@ impl TdCase {
         }
     }
 
+    /// A single-issuer ring of its own (the simulated kernel enforces IORING_SETUP_SINGLE_ISSUER for
+    /// it): the Ring is polled once (this thread becomes the submitter) and dropped, then a regular
+    /// `AsyncFd`, the last handle, is dropped on this thread (`same`) or on another one (`other`).
+    fn do_single_last_handle(&mut self, other_thread: bool) -> Vec<String> {
+        let pre = simk::drain_events();
+        simk::purge_closed_except(self.rfd);
+        let held_main = simk::hold_fd(self.rfd);
+        let before: Vec<i32> = simk::with_sim(|s| s.rings.keys().copied().collect());
+        simk::ENFORCE_SINGLE_ISSUER.store(true, std::sync::atomic::Ordering::SeqCst);
+        let built = Ring::config().with_submission_queue_size(4).single_issuer().build();
+        simk::ENFORCE_SINGLE_ISSUER.store(false, std::sync::atomic::Ordering::SeqCst);
+        if held_main {
+            simk::release_fd(self.rfd);
+        }
+        let mut ring_b = match built {
+            Ok(r) => r,
+            Err(e) => return vec![format!("single-last-handle setup-failed {e}")],
+        };
+        let Some(rfd_b) = simk::with_sim(|s| s.rings.keys().copied().find(|k| !before.contains(k))) else {
+            return vec!["single-last-handle no-new-ring".into()];
+        };
+        let _ = ring_b.poll(Some(Duration::ZERO));
+        let sq_b = ring_b.sq();
+        let r = simk::with_ring(rfd_b, |ring, _| ring.fresh_fd());
+        let fd = unsafe { AsyncFd::from_raw_fd(r, sq_b.clone()) };
+        drop(sq_b);
+        let _ = util::catch(move || drop(ring_b));
+        let _ = simk::drain_events();
+        a10::verif::set_hook(None);
+        if other_thread {
+            let _ = std::thread::spawn(move || drop(fd)).join();
+        } else {
+            let _ = util::catch(move || drop(fd));
+        }
+        a10::verif::set_hook(Some(observe));
+        let mut closes = 0;
+        let mut refused = 0;
+        for e in simk::drain_events() {
+            match e {
+                KEv::CloseReq { fd, direct: false, .. } | KEv::CloseFd { fd, .. } if fd == r => closes += 1,
+                KEv::Enter { ret, .. } if ret == -(libc::EEXIST as i64) => refused += 1,
+                _ => {}
+            }
+        }
+        let open = unsafe { simk::raw_syscall(libc::SYS_fcntl, r as i64, libc::F_GETFD as i64, 0, 0, 0, 0) } >= 0;
+        if open {
+            unsafe { simk::raw_syscall(libc::SYS_close, r as i64, 0, 0, 0, 0, 0) };
+        }
+        if closes != 1 || open {
+            let sig = if other_thread { "C12/single-issuer-last-handle/other-thread" } else { "C12/single-issuer-last-handle/same-thread" };
+            self.fail(sig, format!("single-issuer ring: the AsyncFd dropped after the Ring ({}) was closed {closes} times, descriptor still open: {open}; {refused} io_uring_enter call(s) refused with EEXIST", if other_thread { "on another thread than the ring's submitter" } else { "on the submitter's thread" }));
+        }
+        simk::with_sim(|sim| {
+            let mut keep = pre;
+            keep.append(&mut sim.events);
+            sim.events = keep;
+        });
+        simk::purge_closed_except(self.rfd); // the side ring is gone: the case's own ledger must not count its queue
+        self.feat(if other_thread { "single-last-handle/other" } else { "single-last-handle/same" });
+        vec![format!("single-last-handle closes={closes} open={} refused={refused}", u8::from(open))]
+    }
+
     /// A ring with a kernel submission thread (SQPOLL), of its own: the Ring is dropped first, then a
     /// regular `AsyncFd`, the last handle. Its CLOSE is queued after the Ring is gone; the (awake)
     /// kernel thread consumes it asynchronously — here: at the first load of a kernel-shared word
@@ -457,9 +528,14 @@ impl TdCase {
     /// when the ring descriptor was closed.
     fn do_sqpoll_last_handle(&mut self) -> Vec<String> {
         let pre = simk::drain_events();
-        simk::purge_closed();
+        simk::purge_closed_except(self.rfd);
+        let held_main = simk::hold_fd(self.rfd);
         let before: Vec<i32> = simk::with_sim(|s| s.rings.keys().copied().collect());
-        let ring_b = match Ring::config().with_submission_queue_size(4).with_kernel_thread().build() {
+        let built_b = Ring::config().with_submission_queue_size(4).with_kernel_thread().build();
+        if held_main {
+            simk::release_fd(self.rfd);
+        }
+        let ring_b = match built_b {
             Ok(r) => r,
             Err(e) => return vec![format!("sqpoll-last-handle setup-failed {e}")],
         };
@@ -473,6 +549,7 @@ impl TdCase {
         let _ = util::catch(move || drop(ring_b));
         let _ = simk::drain_events();
         // the kernel thread is awake and runs "a little later"
+        SQPOLL_LOADS.store(0, std::sync::atomic::Ordering::SeqCst);
         SQPOLL_RING.store(rfd_b, std::sync::atomic::Ordering::SeqCst);
         a10::verif::set_hook(Some(sqpoll_progress));
         let _ = util::catch(move || drop(fd));
@@ -498,6 +575,7 @@ impl TdCase {
             keep.append(&mut sim.events);
             sim.events = keep;
         });
+        simk::purge_closed_except(self.rfd);
         self.feat("sqpoll-last-handle");
         vec![format!("sqpoll-last-handle closes={closes} left={left} open={}", u8::from(open))]
     }
@@ -1245,6 +1323,9 @@ impl TdCase {
                 out.push(format!("cqhead={head}"));
                 self.fx(&mut out);
             }
+            ["teardown", "single-last-handle", where_] if matches!(*where_, "same" | "other") => {
+                out = self.do_single_last_handle(*where_ == "other");
+            }
             ["teardown", "sqpoll-last-handle"] => {
                 out = self.do_sqpoll_last_handle();
             }
@@ -1609,9 +1690,12 @@ impl Case for TdCase {
         let live_fds: Vec<usize> = (0..self.fds.len()).filter(|k| self.fds[*k].ptr.is_some()).collect();
         let live_clones: Vec<usize> = (0..self.clones.len()).filter(|k| self.clones[*k].is_some()).collect();
         let live_bufs: Vec<usize> = (0..self.bufs.len()).filter(|k| self.bufs[*k].is_some()).collect();
-        // a ring with a kernel thread, on the side
+        // a ring with a kernel thread / a single-issuer ring, on the side
         if rng.chance(1, 40) {
             return Some("teardown sqpoll-last-handle".into());
+        }
+        if rng.chance(1, 60) {
+            return Some(format!("teardown single-last-handle {}", if rng.chance(1, 2) { "same" } else { "other" }));
         }
         // malformed stream
         if rng.chance(1, 30) {
